@@ -130,11 +130,15 @@ def _name_index_rule(ctx, res) -> None:
                 "update_resource can insert the module's names without having deleted its old rows: a name removed from (or renamed in) the source "
                 "stays in the index and is still offered for import; a fresh index does not have it", function=up.qualname)
     dp = idx.need_func("rope.contrib.autoimport.sqlite.AutoImport._del_package_if_exist")
-    loops = [x for x in walk_local(dp.node) if isinstance(x, ast.For) and isinstance(x.iter, ast.Constant) and isinstance(x.iter.value, str)
+    def chars_of(e):
+        k = idx.const_node(dp.unit.modname, e, dp.cls)  # literal in place or a named constant
+        return k.value if k is not None and isinstance(k.value, str) else None
+
+    loops = [x for x in walk_local(dp.node) if isinstance(x, ast.For) and chars_of(x.iter) is not None
              and any(isinstance(c, ast.Call) and call_name(c) == "replace" for c in ast.walk(x))]
     if len(loops) != 1:
         raise AnalysisError("anchor=sqlite.AutoImport._del_package_if_exist: the loop escaping LIKE wildcards not found")
-    specials = loops[0].iter.value
+    specials = chars_of(loops[0].iter)
     stmt = None
     for u in idx.units.values():
         if u.modname == "rope.contrib.autoimport.models":
